@@ -439,7 +439,12 @@ def check_cond(ctx, case, inputs_list):
         lo = -(1 << 63) if inp.get("mode") == "signed" else 0
         # precondition as for C03: a signed comparison needs both sides in the signed 64-bit range, an unsigned one (neither real
         # operand object is signed) needs both sides non-negative
-        unsigned_cmp = not (sc.left.signed or getattr(sc.right, "signed", False))
+        # (signedness as the property defines it, from the operands' declared kinds -- not from the implementation's own typing:
+        # x registers/variables, sr/sw views, lower-case formats and negative constants are signed)
+        def signed_leaf(l):
+            return (l[0] in ("x", "sr", "sw") or (l[0] == "v" and (fm[l[1]] == "x" or fm[l[1]].islower()))
+                    or (l[0] in ("c", "d") and l[1] < 0))
+        unsigned_cmp = not any(signed_leaf(l) for side in case["cond"][1:] for l in D.leaves(side))
         if unsigned_cmp and (min(qa) < 0 or min(qb) < 0):
             out.append("cond:outside")
             continue
